@@ -83,9 +83,17 @@ func (s *singleWidthIndex) Unmarshal(r io.Reader) error {
 		return err
 	}
 
-	buf := make([]byte, dataLen)
-	if _, err := io.ReadFull(r, buf); err != nil {
+	// dataLen comes from the (possibly hostile) input: do not allocate that much up front, let the
+	// buffer grow with the bytes that are really there.
+	buf, err := io.ReadAll(io.LimitReader(r, int64(dataLen)))
+	if err != nil {
 		return err
+	}
+	if uint64(len(buf)) != dataLen {
+		if len(buf) == 0 {
+			return io.EOF
+		}
+		return io.ErrUnexpectedEOF
 	}
 	s.index = buf
 	return nil
